@@ -80,7 +80,6 @@ inductive Bound | int (n : Int) | text (bs : Bytes)
 inductive BVal
   | val (n : Int)     -- an integer
   | posInf            -- TEXT that is no number (sorts after every integer) or an integer literal ≥ 2⁶³
-  | overflow          -- Python int outside 64 bits: binding raises
   | unmodelled        -- text that SQLite converts to a floating point number (not modelled)
   deriving DecidableEq, Repr
 
@@ -111,8 +110,11 @@ def sqlTextVal (bs : Bytes) : BVal :=
       if fits x then .val x else if neg then .unmodelled else .posInf
 
 def Bound.eval : Bound → BVal
-  | .int n => if fits n then .val n else .overflow
+  | .int n => .val n
   | .text bs => sqlTextVal bs
+
+/-- the integer that is bound to the statement (`0` stands for a text parameter, which always binds) -/
+def Bound.param : Bound → Int | .int n => n | .text _ => 0
 
 /-- `seqNo >= ?` -/
 def BVal.le (b : BVal) (x : Int) : Bool :=
@@ -297,14 +299,13 @@ def setSeqNum (j : Journal) (h : Handle) (out inn : Option Int) : Journal × Res
         h.key (effOut h out) .outbound,
       .set { h with nextOut := effOut h out, nextIn := effIn h inn } none)
 
-/-- `Journaler.recover_messages()` (binding order key, direction, start, end) -/
+/-- `Journaler.recover_messages()` (binding order key, direction, start, end; an int outside
+64 bits raises OverflowError) -/
 def recoverMessages (j : Journal) (h : Handle) (dir : Dir) (lo hi : Bound) : Res :=
-  if !fits h.key then .raised .overflow
+  if !(fits h.key && fits lo.param && fits hi.param) then .raised .overflow
   else
     match lo.eval, hi.eval with
-    | .overflow, _ => .raised .overflow
     | .unmodelled, _ => .unmodelled
-    | _, .overflow => .raised .overflow
     | _, .unmodelled => .unmodelled
     | l, u => .msgs (selRange j h.key dir l u)
 
